@@ -418,7 +418,7 @@ def op_to_wire(op):
         return ["$goodrun", "$" + op[1], [[[cell_to_wire(c) for c in d], num_to_wire(w)] for d, w in op[2]]]
     if k == "immut":
         return ["$immut", "$" + op[1], "$" + op[2]]
-    if k in ("good", "iszero", "uniform", "liveok", "inv", "singlepath", "hastmpl", "nobins"):
+    if k in ("good", "iszero", "uniform", "liveok", "inv", "singlepath", "hastmpl", "nobins", "knownctype"):
         return ["$" + k, "$" + op[1]]
     if k in ("samebase", "same", "compat", "eqcontent"):
         return ["$" + k, "$" + op[1], "$" + op[2]]
